@@ -7,6 +7,7 @@ from ..facts import callee, const_int, const_str, op_const, op_local, op_place
 from ..flow import Flow, identity_through
 
 CONFIGS_QUICK = ["K1"]
+WITNESS_PREFIX = "C13"
 CONFIGS_THOROUGH = ["K1", "K2"]
 TECHNIQUE = "static analysis: positional provenance command i <-> frame i <-> output i in all tuple/Vec impls (MIR), CFG shape of list rendering"
 
